@@ -149,7 +149,7 @@ Lemma new_minavg_agree minavg s nl :
   0 < minavg -> 0 < nl -> 0 <= cs_num s -> 0 <= cs_tva s <= K61 -> minavg * (cs_num s + nl) <= K61 ->
   new_minavg w64 minavg s nl = new_minavg wx minavg s nl.
 Proof.
-  intros Hm Hn Hnum Ha Hb. unfold new_minavg. cbv zeta.
+  intros Hm Hn Hnum Ha Hb. unfold new_minavg. cbv zeta. lits.
   assert (H1 : 0 <= minavg * (cs_num s + nl)) by nia.
   rewrite (w64_id (minavg * (cs_num s + nl))) by (unfold K61 in *; lia).
   rewrite (w64_id (minavg * (cs_num s + nl) - cs_tva s)) by (unfold K61 in *; lia).
@@ -164,7 +164,7 @@ Lemma new_minavg_bounds minavg s nl :
   - K61 <= new_minavg wx minavg s nl <= minavg.
 Proof.
   intros Hm Hnum Hn Hh Ha. pose proof (new_minavg_ceil minavg s nl Hn) as Hceil.
-  unfold new_minavg, wx in *. set (need := minavg * (cs_num s + nl) - cs_tva s) in *.
+  unfold new_minavg, wx in *. lits. set (need := minavg * (cs_num s + nl) - cs_tva s) in *.
   assert (Hneed : need <= minavg * nl) by (subst need; lia).
   pose proof (Z.quot_rem' need nl) as Hqr. pose proof (quot_bound need nl Hn) as Hq.
   destruct (Z.ltb_spec 0 need) as [Hpos|Hneg].
@@ -197,7 +197,7 @@ Lemma extend_agree maxin mc minavg target : - K62 - K61 <= target + mc <= K62 + 
   forall lows s, okx s -> small (cs_list s ++ lows) ->
   extend w64 maxin mc minavg target lows s = extend wx maxin mc minavg target lows s.
 Proof.
-  intros Ht. induction lows as [|x t IH]; intros s Hok Hs; cbn [extend]; [reflexivity|].
+  intros Ht. induction lows as [|x t IH]; intros s Hok Hs; cbn [extend]; [reflexivity|]. rewrite lit_skip_va_eq.
   destruct (cs_num s >=? maxin); [reflexivity|].
   rewrite (small_in _ x Hs) by (apply in_or_app; right; left; reflexivity).
   pose proof (small_drop _ _ _ Hs) as Hdrop.
@@ -277,9 +277,10 @@ Section Bridge.
       apply (Forall_perm _ _ _ (Permutation_sym Hp)) in Hn. apply Forall_app in Hn as [_ Hn]. pose proof (nonneg_sumv _ Hn). lia. }
     assert (Hlen : Z.of_nat (length low) + Z.of_nat (length hi) <= Z.of_nat (length all)).
     { rewrite <- (Permutation_length Hp), !app_length. lia. }
-    induction k as [|k IH]; intros nl Hnl; cbn [topup]; [reflexivity|].
+    induction k as [|k IH]; intros nl Hnl; cbn [topup]; [reflexivity|]. rewrite lit_topup_slack_eq.
     destruct (Z.leb_spec nl (Z.of_nat (length low))) as [Hle|Hgt]; cbn [andb]; [|reflexivity].
     destruct (nl + (Z.of_nat (length hi) - 1) + 1 <=? maxin); [|reflexivity].
+    destruct (Z.eqb_spec nl 0) as [Hz|_]; [lia|].
     (* low is not empty, so the requirement is positive *)
     assert (Hm : 0 < minavg).
     { destruct low as [|x low']; [cbn in Hle; lia|]. inversion Hlow; subst.
@@ -326,7 +327,7 @@ Section Bridge2.
       = outer wx sort_by recx maxin mc minavg target (Z.of_nat (length low)) low hi_acc rest.
   Proof.
     intros Hin Hlow Hrok Hrag. pose proof (inb_target _ _ _ _ Hin) as Ht. pose proof Hin as (Hsall & _).
-    induction rest as [|x rest IH]; intros hi_acc Hp Hhi; cbn [outer]; [reflexivity|].
+    induction rest as [|x rest IH]; intros hi_acc Hp Hhi; cbn [outer]; [reflexivity|]. rewrite lit_numlow_start_eq.
     set (hi := hi_acc ++ [x]) in *.
     assert (Eapp : hi_acc ++ x :: rest = hi ++ rest) by (subst hi; rewrite <- app_assoc; reflexivity).
     rewrite Eapp in *.
@@ -414,6 +415,27 @@ Proof.
   intros Hs Hl maxin mc minavg target coins Hin. pose proof (inb_target _ _ _ _ Hin) as Ht. pose proof Hin as (Hsm & _).
   split; [apply min_index_agree; assumption|]. split; [apply min_number_agree; assumption|].
   split; [apply max_value_age_agree; assumption|]. apply min_priority_agree; assumption.
+Qed.
+
+(* the three simple selectors, read about the int64 code: inside the bounds (the required average
+   plays no role: 0) they return the shortest qualifying prefix and only valid selections *)
+Theorem simple_selectors_w64 sort_by : sort_spec sort_by -> sort_local sort_by ->
+  forall maxin mc target coins, inb mc 0 target coins ->
+    prefix_sel maxin mc target coins (min_index w64 maxin mc target coins)
+    /\ (exists p, Permutation p coins /\ desc_by cval p
+                  /\ prefix_sel maxin mc target p (min_number w64 sort_by maxin mc target coins))
+    /\ (exists p, Permutation p coins /\ desc_by vax p
+                  /\ prefix_sel maxin mc target p (max_value_age w64 sort_by maxin mc target coins))
+    /\ forall s, (min_index w64 maxin mc target coins = Ok s
+                  \/ min_number w64 sort_by maxin mc target coins = Ok s
+                  \/ max_value_age w64 sort_by maxin mc target coins = Ok s) ->
+                 valid_selection maxin mc target coins s.
+Proof.
+  intros Hs Hl maxin mc target coins Hin.
+  destruct (selectors_agree sort_by Hs Hl maxin mc 0 target coins Hin) as (E1 & E2 & E3 & _).
+  rewrite E1, E2, E3. split; [apply min_index_shortest_prefix|].
+  split; [apply min_number_shortest_prefix, Hs|]. split; [apply max_value_age_shortest_prefix, Hs|].
+  intros s. apply select_valid_all, Hs.
 Qed.
 
 (* the bounds are met by realistic inputs: amounts up to 21e14 satoshi in total, value-ages up to 2^61 *)
